@@ -374,19 +374,19 @@ Definition print_token (ix : index) (id : N) (text : list N) (st : pstate) : pst
   end.
 
 (* the tokens of one scope; slots/starts are what the walker recorded for it *)
-Fixpoint emit_seq (f : tok -> pstate -> pstate) (l : list tok)
-         (slots : list (list tok)) (starts : list N) (st : pstate) : pstate :=
+Definition emit_seq (f : tok -> pstate -> pstate) :=
+  fix go (l : list tok) (slots : list (list tok)) (starts : list N) (st : pstate) {struct l} : pstate :=
   match l with
   | [] => (fst st ++ concat slots, snd st)
   | t :: r =>
-    if skippable t then emit_seq f r slots starts st
+    if skippable t then go r slots starts st
     else
       match starts, slots with
       | s :: starts', sl :: slots' =>
         if (s =? open_id t) || (s =? close_id t)
-        then emit_seq f r slots' starts' (f t (fst st ++ sl, snd st))
-        else emit_seq f r slots starts (f t st)
-      | _, _ => emit_seq f r slots starts (f t st)
+        then go r slots' starts' (f t (fst st ++ sl, snd st))
+        else go r slots starts (f t st)
+      | _, _ => go r slots starts (f t st)
       end
   end.
 
